@@ -27,7 +27,7 @@ def argOK (s : SchemaD) (a : ArgD) : Bool :=
   (if a.hasDefault then wtB s valueFuel a.default a.type else isNullJ a.default)
 
 def fieldOK (s : SchemaD) (f : FieldD) : Bool :=
-  f.args.all (argOK s) && (docEnv s).resolves f.type.base && f.resolver.isNone && deprOK f.deprecated && descOK f.desc
+  f.args.all (argOK s) && (docEnv s).resolves f.type.base && f.resolver.isNone && f.subscriptionResolver.isNone && deprOK f.deprecated && descOK f.desc
 
 /-- enum value: SDL-style (internal value = name; a printed schema cannot carry Python values), not a reserved word -/
 def enumValOK (v : EnumValD) : Bool :=
@@ -100,15 +100,17 @@ theorem depr_roundtrip (r : Option String) (h : deprOK r = true) : deprecationRe
 
 theorem field_to_doc_build (s : SchemaD) (f : FieldD) (h : fieldOK s f = true) : buildField (docEnv s) (fieldToDef s f) = .ok f := by
   simp only [fieldOK, Bool.and_eq_true, List.all_eq_true] at h
-  obtain ⟨⟨⟨⟨h1, h2⟩, h3⟩, h4⟩, h5⟩ := h
+  obtain ⟨⟨⟨⟨⟨h1, h2⟩, h3⟩, h3s⟩, h4⟩, h5⟩ := h
   have hargs := mapM_to_doc (argToDef s) (buildArgument (docEnv s)) f.args (fun a ha => arg_to_doc_build s a (h1 a ha))
   have hd := descToDoc_ok f.desc h5
   have hdep := depr_roundtrip f.deprecated h4
   cases f with
-  | mk name type args deprecated desc resolver =>
-    simp only [] at h2 h3 h4 hargs hd hdep
+  | mk name type args deprecated desc resolver subres =>
+    simp only [] at h2 h3 h3s h4 hargs hd hdep
     have hr : resolver = none := by simpa using h3
     subst hr
+    have hrs : subres = none := by simpa using h3s
+    subst hrs
     have hfd : fieldDeprecation deprecated = deprecated := by
       cases deprecated with
       | none => rfl
